@@ -40,7 +40,7 @@ CLIENT_ADDR = ("1.2.3.4", 1234)
 SERVER_ADDR = ("2.3.4.5", 4433)
 VMAX = R.VARINT_MAX
 H3_CODES = frozenset(int(c) for c in ErrorCode)
-THOROUGH_BUDGET_S = int(os.environ.get("VERIF_C16_BUDGET", "480"))  # wall seconds for the h3 part
+THOROUGH_BUDGET_S = int(os.environ.get("VERIF_C16_BUDGET", "540"))  # wall seconds for the h3 part
 
 REQ = [(b":method", b"GET"), (b":scheme", b"https"), (b":authority", b"localhost"),
        (b":path", b"/")]
@@ -815,11 +815,14 @@ def chunkings_at(level, tier, msg):
     if msg["target"] == "dgram":
         chs = ("whole",)
     elif level == 0:
-        chs = ("whole", "bytes") if msg["cls"].endswith(":raw-instruction") else CHUNKINGS
+        if msg["cls"].endswith(":raw-instruction"):
+            chs = ("whole",) if tier == "quick" else ("whole", "bytes")
+        else:
+            chs = CHUNKINGS
     elif tier == "quick":
         chs = ("whole",)
     else:
-        chs = CHUNKINGS if level == 1 else ("whole",)
+        chs = ("whole", "bytes") if level == 1 else ("whole",)
     out, seen = [], set()
     for ch in chs:
         c = tuple(chunks_of(msg["parts"], msg["fin"], ch))
@@ -830,7 +833,26 @@ def chunkings_at(level, tier, msg):
     return out
 
 
-def successors(w, msg, conn_changed, sid, tier, next_level, depth):
+# third level (thorough): complete depth-3 exploration over this small representative menu
+CORE_LABELS = frozenset([
+    "ctrl:SETTINGS-payload:valid", "ctrl:SETTINGS:exact", "ctrl:MAX_PUSH_ID-payload:8",
+    "ctrl:MAX_PUSH_ID-payload:3", "ctrl:GOAWAY-payload:8", "ctrl:UNK21:exact",
+    "ctrl:HEADERS:exact+1", "ctrl:frame-header:len-cut", "ctrl:FIN",
+    "req:HEADERS:exact", "req:HEADERS:exact+FIN", "req:DATA:exact", "req:DATA:exact+1",
+    "req:UNK21:exact", "req:PUSH_PROMISE-payload:valid", "req:HEADERS-payload:blocked",
+    "req:FIN", "req:frame-header:type-cut", "req:HEADERS-payload:content-length-mismatch",
+    "req:message:HEADERS+DATA", "req:HEADERS-payload:value-non-utf8",
+    "push:HEADERS:exact", "push:DATA:exact", "push:FIN",
+    "enc:instructions:capacity+insert", "enc:open-or-nothing", "enc:FIN",
+    "dec:instructions:section-ack-unknown", "dec:instructions:insert-count-increment-0",
+    "dec:open-or-nothing", "blk:continuation:FIN", "blk:continuation:DATA",
+    "wtb:WEBTRANSPORT_STREAM:session+data", "wtb:WEBTRANSPORT_STREAM:more-data",
+    "wtu:stream:data", "uni:opening:unknown+data", "ctrl2:type-only", "dgram:0",
+    "sbidi:frames:HEADERS",
+])
+
+
+def successors(w, msg, conn_changed, sid, tier, next_level, depth, all_core=False):
     """Menu indices worth trying from the state just reached (level >= 1).
 
     Reduced menu: no raw QPACK sweep; quick and the last thorough level use the 'lite' menu.
@@ -844,12 +866,17 @@ def successors(w, msg, conn_changed, sid, tier, next_level, depth):
     if msg["cls"].endswith(":raw-instruction") or msg["target"] == "dgram":
         return []
     ms = menu_for(w.proto, w.role)[0]
-    lite_only = w.proto == "h3" and (tier == "quick" or next_level >= 2)
+    lite_only = w.proto == "h3" and tier == "quick"
+    core_only = w.proto == "h3" and next_level >= 2
+    if core_only and not all_core:
+        return []
     out = []
     for i, m in enumerate(ms):
         if m["cls"].endswith(":raw-instruction"):
             continue
         if lite_only and not m["lite"]:
+            continue
+        if core_only and m["label"] not in CORE_LABELS:
             continue
         p = w.peek(m["target"])
         if p is None:
@@ -916,7 +943,8 @@ def work(item):
                 conn_changed = True
             else:
                 conn_changed = dependents(before, w.canon()[1], msg)
-            succ = successors(w, msg, conn_changed, sid, tier, level + 1, depth)
+            all_core = all(lab in CORE_LABELS for lab, _c in history) and msg["label"] in CORE_LABELS
+            succ = successors(w, msg, conn_changed, sid, tier, level + 1, depth, all_core)
         res.append((idx, chunking, key, outcome, viol, succ))
     return res
 
@@ -934,10 +962,12 @@ def configs_for(proto, tier):
     return out
 
 
-def root_indices(proto, cfg):
+def root_indices(proto, cfg, tier):
     ms = menu_for(proto, cfg[1])[0]
     out = []
     for i, m in enumerate(ms):
+        if tier == "quick" and m["cls"].endswith(":raw-instruction") and m["label"][-1] in "135":
+            continue  # quick: tails 0, 2, 4 (empty, ff, ff*11) of the raw QPACK sweep
         if m["cls"].endswith(":raw-instruction") and (cfg[2] or cfg[3] not in ("settings", "blocked")):
             # the raw QPACK instruction sweep runs after 'settings' and 'blocked' only, without
             # logger (that path logs nothing beyond the stream type)
@@ -948,7 +978,7 @@ def root_indices(proto, cfg):
 
 def explore_proto(ctx, proto, depth, batch=24, time_cap=None):
     tier = ctx.tier
-    frontier = [(cfg, [], root_indices(proto, cfg)) for cfg in configs_for(proto, tier)]
+    frontier = [(cfg, [], root_indices(proto, cfg, tier)) for cfg in configs_for(proto, tier)]
     seen = set()
     states = len(frontier)
     transitions = 0
@@ -962,9 +992,9 @@ def explore_proto(ctx, proto, depth, batch=24, time_cap=None):
         items = []
         skipped_cfg = 0
         for cfg, hist, succ in frontier:
-            if level >= 1 and tier == "quick" and proto == "h3" and cfg[2] is False:
-                # deeper levels (quick): logger-on configurations only - a superset of the
-                # code paths of the logger-off ones
+            if level >= 1 and proto == "h3" and cfg[2] is False:
+                # deeper levels: logger-on configurations only - a superset of the code
+                # paths of the logger-off ones
                 skipped_cfg += 1
                 continue
             ms = menu_for(proto, cfg[1])[0]
@@ -1062,7 +1092,7 @@ def run(ctx):
         "ErrorCode, datagrams_to_send returns and the peer decrypts CONNECTION_CLOSE with it"
     )
     ctx.cov["bounds"] = {"depth": depth, "prefixes": PREFIXES, "chunkings": CHUNKINGS,
-                         "quick_deeper_levels": "lite menu, logger-on configurations, 2 chunkings"}
+                         "core_menu": sorted(CORE_LABELS)}
     ctx.cov["exhaustive"] = not ctx.caps_hit
     ctx.assumptions += [
         "events are hand-built (the transport under the layer is real and connected, but the "
@@ -1076,8 +1106,10 @@ def run(ctx):
         "blocked) is followed by same-stream messages only; messages on other streams were "
         "explored from the parent state (H3Connection keeps per-stream state in H3Stream "
         "objects looked up by stream id)",
-        "quick: levels below the first use the 'lite' menu, one chunking (whole) and the "
-        "logger-on configurations; the raw QPACK first-byte sweep runs at the first level only",
+        "levels below the first: logger-on configurations only; the raw QPACK first-byte sweep "
+        "runs at the first level only; quick level 2 = 'lite' menu, chunking 'whole'; thorough "
+        "level 2 = full menu x {whole, byte-wise}, level 3 = complete over the %d-message core "
+        "menu (both earlier messages and the third from it), chunking 'whole'" % len(CORE_LABELS),
     ]
 
 
